@@ -414,14 +414,15 @@ impl<M: AlignMarker> Ctx<M> {
                 let rcs: Vec<Rc<Node<M>>> = match n {
                     0 => {
                         // nothing is returned; the block address is not observable through the API
-                        let before = crate::alloc::bytes_used();
+                        // the object block is the allocation made by this call
+                        crate::alloc::capture_begin(circ::verif::block_layout::<Node<M>>().0);
                         let r: [Rc<Node<M>>; 0] = Rc::new_many::<0>(node);
                         let _ = r;
-                        // the object block is the allocation made by this call: find it by layout
-                        let (size, align) = circ::verif::block_layout::<Node<M>>();
-                        let base = crate::alloc::arena_addr_at(before, size, align);
+                        let base = crate::alloc::capture_end();
                         if let Some(addr) = base {
-                            self.register(id, addr, 0);
+                            if !shadow().objs[id as usize].registered {
+                                self.register(id, addr, 0);
+                            }
                         }
                         sim().probe("new_many_0");
                         Vec::new()
@@ -452,11 +453,14 @@ impl<M: AlignMarker> Ctx<M> {
                 let count = [0usize, 1, 2, 3, 5][a % 5];
                 let take = b.min(count + 1);
                 let (node, id, _rank) = self.new_node(Origin::NewIter(count as u32));
-                let before = crate::alloc::bytes_used();
+                crate::alloc::capture_begin(circ::verif::block_layout::<Node<M>>().0);
                 let mut it = Rc::new_many_iter(node, count);
-                let (size, align) = circ::verif::block_layout::<Node<M>>();
-                match crate::alloc::arena_addr_at(before, size, align) {
-                    Some(addr) => self.register(id, addr, count as i64),
+                match crate::alloc::capture_end() {
+                    Some(addr) => {
+                        if !shadow().objs[id as usize].registered {
+                            self.register(id, addr, count as i64);
+                        }
+                    }
                     None => return,
                 }
                 let mut yielded = 0;
